@@ -72,6 +72,10 @@ def do_step(chk: Check) -> None:
     cont = [r_ for r_ in rets if isinstance(r_.ast.value, ast.Call) and last_name(r_.ast.value) in ('Continue', 'Wait')]
     chk.ob('DOM-one-instruction', ds, bool(cont) and all(r_.ast.value.args and norm(r_.ast.value.args[0]) == 'self._do_step' for r_ in cont), 'the chain continues with _do_step itself',
            kind='continues-with-do-step')
+    from .common import spec_built_per_class
+    spec_built_per_class(chk, 'TAB-outline-per-class')
+    from .common import context_assignment_is_any_dict
+    context_assignment_is_any_dict(chk, 'DOM-one-instruction')
     # return propagation
     handlers = [h for tr in ast.walk(ds.node) if isinstance(tr, ast.Try) for h in tr.handlers if h.type is not None and norm(h.type) == '_PropagateReturn']
     ok = len(handlers) == 1
